@@ -218,7 +218,9 @@ def trace(ctx, binary, k, nids, ntraces, nsteps, tag):
         errs = " ".join(r.errors).upper()
         k_ = min(v["matched"], len(events) - 1)
         if r.status == "violation":
-            ctx.violation("trace:invariant-%s:k%d" % (r.violated, k), {"event_index": k_, "event": events[k_]}, {"kind": "kbucket-trace", "trace": path_})
+            # the trace states equal the real table snapshots on which python already evaluated Valid: disagreement => triage
+            ctx.infra("MODEL-DRIFT: TLC invariant %s false on recorded event #%d although the python predicates hold: %s" % (
+                r.violated, k_ + 1, str(events[k_])[:400]))
         elif r.status == "timeout" or (r.errors and "POSTCONDITION" not in errs):
             ctx.infra("trace validation failed to run (%s): %s" % (r.status, r.errors[:3]))
         else:
